@@ -39,6 +39,9 @@ CHECKS = {
  "C19": ("exhaustive write/read cycles over enumerated stores (E1): one- and two-fact stores for every constant of the printable universe, every ordered predicate layout with 0-2 facts, formats plain/gzip/zstd x deterministic on/off, read back eagerly and lazily with every pattern query; byte equality of deterministic writes over every insertion order",
          "bounded-exhaustive: every store of the enumerated families is written by SimpleColumn.WriteTo and read back by ReadInto (3 store kinds) and SimpleColumnStore (full scan, counts, Contains, every pattern over the columns' constants) and compared as sets with the original",
          "printable constants only (C09 alphabet); hash-keyed target/source stores are used only for fact sets without Atom.Hash() collisions (their conflation is C06's known finding)", "4 C19"),
+ "C16": ("operation-history search (E2, differential): every define/load/pop history up to depth d over a 15-command alphabet on a fresh real interpreter; after every command, outcome and all query answers are compared with a fresh interpreter that loads only the live fragments",
+         "bounded-exhaustive: every command history up to the depth bound is executed on the real interpreter; the reference is the same implementation started fresh on the live fragments implied by the documented stack discipline, so no expected values are hand-written",
+         "definitions are issued as Loop issues them through a 6-line method added to package interpreter by go build -overlay (mc/seam/interp_hook.go); the stack discipline (load pops interactive definitions first) is taken from the documentation", "4 C16"),
 }
 NOT_APPLICABLE = {
 }
@@ -66,8 +69,8 @@ m = {
  "version": 1,
  "setup_cmd": "./check setup",
  "hooks": {
-  "guard": "none-in-repo (instrumentation is applied through go build -overlay derived from the working tree; no guarded source changes are committed to /repo)",
-  "enable": "./check builds /verif/mc against /repo via a go.mod replace directive; seam builds add -overlay generated by mc/cmd/overlaygen from /repo's current files",
+  "guard": "verif-overlay: no source change is committed to /repo; the only instrumentation is one file (mc/seam/interp_hook.go) ADDED to package interpreter at build time through go build -overlay mc/overlay.json",
+  "enable": "./check builds /verif/mc against /repo's working tree via a go.mod replace directive with -overlay mc/overlay.json (generated by ./check)",
   "baseline_off_cmd": "cd /repo && GOFLAGS=-mod=mod go test -json -vet=off -count=1 -timeout 25m ./...",
   "source_commits": [],
   "add_only": True,
